@@ -95,7 +95,10 @@ def e2e_one(chk, sseed):
         if common.has_s3(repo, w.cfgs[url], store):
             chk.evaluated(None)
             return
-        pattern = rng.choice(["all", "no-byhash", "no-canonical", "first-algo-missing"])
+        # by-hash URLs unavailable in a non-404 way (server error, wrong length, aborted body) on every attempt: the
+        # canonical URL is healthy and must still be tried with its own retry budget
+        pattern = rng.choice(["all", "no-byhash", "no-canonical", "first-algo-missing", "byhash-500", "byhash-broken"])
+        broken = rng.choice(["500", "wrong-length", "short-announced", "abort"])
         plan = []
         for k in store:
             is_bh = "/by-hash/" in k
@@ -103,12 +106,16 @@ def e2e_one(chk, sseed):
             if k.startswith("dists/") and base not in fsckmod.RELEASE_NAMES:
                 if pattern == "no-byhash" and is_bh:
                     plan.append([k, "*", "404"])
+                elif pattern == "byhash-500" and is_bh:
+                    plan.append([k, "*", "500"])
+                elif pattern == "byhash-broken" and is_bh:
+                    plan.append([k, "*", broken])
                 elif pattern == "no-canonical" and not is_bh:
                     plan.append([k, "*", "404"])
                 elif pattern == "first-algo-missing" and is_bh and "/by-hash/SHA" in k and rng.random() < 0.5:
                     plan.append([k, "*", "404"])
         res = w.run(plans={url: plan}, chooser=vloop.RandomChooser(rng.randrange(1 << 30)))
-        replay = {"scenario_seed": sseed, "lines": w.lines, "option": opt, "pattern": pattern}
+        replay = {"scenario_seed": sseed, "lines": w.lines, "option": opt, "pattern": pattern, "broken": broken}
         m = runner.mirror_dir(w.sb, url)
         applies_all = {cn: ((opt != "by-hash=no") if cs["by_hash"] else (opt == "by-hash=force"))
                        for cn, cs in repo["codenames"].items() if cn in w.cfgs[url]["codenames"]}
@@ -133,7 +140,7 @@ def e2e_one(chk, sseed):
                 if pattern == "no-canonical" and res.exit == 0 and uniform:
                     chk.violation("exit0-without-canonical", replay, "canonical URLs unavailable, by-hash off, yet exit 0")
             else:
-                if pattern in ("all", "no-byhash", "first-algo-missing") and res.exit != 0 and uniform:
+                if pattern in ("all", "no-byhash", "first-algo-missing", "byhash-500", "byhash-broken") and res.exit != 0 and uniform:
                     chk.violation("fallback-failed:" + pattern, replay, f"{cn}: by-hash applies, canonical URLs available, but exit {res.exit}")
                 if pattern == "no-canonical" and res.exit != 0 and uniform:
                     chk.violation("byhash-not-used", replay, f"{cn}: every index is available under by-hash but exit {res.exit}")
